@@ -1,8 +1,18 @@
 (* Properties/C03.v — C03: the static result is referentially closed and the stop hierarchy is a forest.
    References are indices into the result's own collections (DESIGN 4.2); that the real pointers ARE elements of those
    collections is checked by address on every run (a pointer to a copy would project to "foreign" and break the correspondence). *)
-From GV Require Import Base.Prelude Model.Realtime Model.Static Proofs.StaticProofs.
+From GV Require Import Base.Prelude Model.Realtime Model.Static Proofs.StaticProofs Proofs.ClosureProofs.
 
+(* the whole result, for ANY tables whatsoever (any provider of opened files, any rows - malformed, dangling, duplicated -,
+   any number and date oracles): every reference the result holds is an index into the result's own collection:
+   route -> agencies, stop -> stops (parent), transfer -> stops (both ends), trip -> routes / services / shapes,
+   stop time -> stops.  (That the real pointers ARE those elements is checked by address on every run.) *)
+Theorem C03_result_closed : forall pf di inherit tbl r, parse_tables pf di inherit tbl = Ok r -> closed r.
+Proof. exact result_closed. Qed.
+Print Assumptions C03_result_closed.
+Corollary C03_parse_static_closed : forall pf di inherit ms r, parse_static pf di inherit ms = Ok r -> closed r.
+Proof. intros pf di inherit ms r H. exact (result_closed pf di inherit _ r H). Qed.
+Print Assumptions C03_parse_static_closed.
 (* the forest, for EVERY stops.txt whatsoever (self parents, mutual parents, long cycles, duplicates): after linking,
    walking from any stop to its root terminates within length+1 steps, and no stop is its own ancestor *)
 Theorem C03_root_terminates : forall sp i, (i < List.length sp)%nat ->
